@@ -289,7 +289,8 @@ Inductive out :=
 | OInit (to : kid) (m : init_msg)
 | OResp (to : kid) (m : resp_msg)
 | OTransport (to : kid) (receiver : N) (key : term) (keepalive : bool)
-| OTunWrite (from : kid).
+| OTunWrite (from : kid)
+| OCookieReply (receiver : N) (nonce : N) (c : term).   (* SendHandshakeCookie: to the source of the denied message *)
 
 (* What reaches the device. *)
 Inductive ev :=
@@ -302,6 +303,9 @@ Inductive ev :=
 | ECookie (receiver : N) (nonce : N) (c : term)    (* datagram: cookie reply, c = the sealed cookie field *)
 | ESetPrivateKey (new : kid)                       (* UAPI private_key=: Device.SetPrivateKey *)
 | EAge (secs : N)
+| EInitLoad (m : init_msg) (e : kid) (idx : N) (ck : term) (nonce : N)
+    (* an initiation while the device is under load (IsUnderLoad); ck = the cookie the checker computes
+       for the datagram's source (Mac(secret, source): an oracle atom), nonce = the reply's nonce *)
 | EInitKey (m : init_msg) (e : kid) (idx : N) (new : kid).
     (* an initiation, and SetPrivateKey(new) scheduled in the handshake worker exactly between
        ConsumeMessageInitiation and SendHandshakeResponse (if the initiation gets that far; else
@@ -495,6 +499,14 @@ Definition dev_step (d : dev) (e : ev) : dev * list out :=
       (set_private_key d new, [])
   | EAge secs =>
       ({| d_static := d_static d; d_peers := map (age_peer secs) (d_peers d); d_olds := d_olds d |}, [])
+  | EInitLoad m er idx ck nonce =>
+      (* RoutineHandshake under load: CheckMAC1; CheckMAC2 under the cookie for the source, else
+         SendHandshakeCookie: CookieChecker.CreateReply seals the cookie under
+         Hash("cookie--" || own public key) with the message's MAC1 as associated data, receiver = the
+         message's sender index; with a valid MAC2 (and the rate limiter allowing) as without load *)
+      if negb (check_mac1 (d_static d) (init_body m) (i_mac1 m)) then (d, []) else
+      if teqb (i_mac2 m) (mac ck (TPair (init_body m) (i_mac1 m))) then init_step d m er idx
+      else (d, [OCookieReply (i_sender m) nonce (aead_seal (cookie_key (TPub (d_static d))) nonce ck (i_mac1 m))])
   | EInitKey m er idx new =>
       (* RoutineHandshake as for EInit, with SetPrivateKey run by another goroutine after
          ConsumeMessageInitiation has stored the consumed state and before CreateMessageResponse:
